@@ -23,6 +23,10 @@ import (
 // Hence a loop iteration that reaches the back edge with a header read and nothing
 // successfully consumed (or with the error of the consuming call ignored) does not advance:
 // the next iteration sees the same header — the loop can spin forever on a crafted packet.
+//
+// The walk is path-sensitive on equalities between a string location (φ value, local
+// variable, or a variable captured by a closure) and string constants, and follows calls to
+// module functions/closures that themselves call parser methods.
 
 const dnsPkg = "golang.org/x/net/dns/dnsmessage"
 
@@ -52,7 +56,7 @@ func headerSection(name string) string {
 	return ""
 }
 
-// consuming: "" = not consuming; "*" = consumes in any section; "Answer" etc = consumes only in that section.
+// consumingSection: "" = not consuming; "*" = consumes in any section; "Answer" etc = only in that section.
 func consumingSection(name string) string {
 	switch name {
 	case "SkipAnswer":
@@ -64,22 +68,100 @@ func consumingSection(name string) string {
 	case "UnknownResource":
 		return "*"
 	}
-	if strings.HasSuffix(name, "Resource") && name != "UnknownResource" {
+	if strings.HasSuffix(name, "Resource") {
 		return "*"
 	}
 	return ""
 }
 
-type tsState struct {
-	hdr     string    // section of the pending (read, unconsumed) header
-	hdrErr  ssa.Value // error value of the header call (nil-ness not yet tested)
-	pend    ssa.Value // error value of a consuming call whose outcome is not yet tested
-	pendSec string
-	known   string // serialised string-equality knowledge
+// usesParser: fn (a module function or closure) calls a parser method (directly).
+func usesParser(fn *ssa.Function) bool {
+	if fn == nil || fn.Blocks == nil {
+		return false
+	}
+	found := false
+	core.EachInstr(fn, func(i ssa.Instruction) {
+		if site, ok := i.(ssa.CallInstruction); ok {
+			if _, name := parserMethod(site); name != "" {
+				found = true
+			}
+		}
+	})
+	return found
 }
 
-func (s tsState) key() string {
-	return fmt.Sprintf("%s|%p|%p|%s|%s", s.hdr, s.hdrErr, s.pend, s.pendSec, s.known)
+type tsFrame struct {
+	fn    *ssa.Function
+	block *ssa.BasicBlock
+	idx   int       // next instruction index
+	call  *ssa.Call // call instruction in the caller that created this frame (nil for the root)
+	bind  map[*ssa.FreeVar]ssa.Value
+}
+
+type tsState struct {
+	hdr     string
+	hdrErr  ssa.Value
+	pend    ssa.Value // error value of a consuming call whose outcome is not yet tested
+	pendSec string
+}
+
+type tsItem struct {
+	frames []tsFrame
+	st     tsState
+	eq     map[ssa.Value]string          // location -> known constant
+	neq    map[ssa.Value]map[string]bool // location -> excluded constants
+}
+
+func (it *tsItem) clone() tsItem {
+	n := tsItem{frames: append([]tsFrame(nil), it.frames...), st: it.st, eq: map[ssa.Value]string{}, neq: map[ssa.Value]map[string]bool{}}
+	for k, v := range it.eq {
+		n.eq[k] = v
+	}
+	for k, m := range it.neq {
+		n.neq[k] = map[string]bool{}
+		for s := range m {
+			n.neq[k][s] = true
+		}
+	}
+	return n
+}
+
+func (it *tsItem) key() string {
+	var parts []string
+	for _, f := range it.frames {
+		parts = append(parts, fmt.Sprintf("%p:%d:%d", f.fn, f.block.Index, f.idx))
+	}
+	var ks []string
+	for v, s := range it.eq {
+		ks = append(ks, fmt.Sprintf("%p=%s", v, s))
+	}
+	for v, m := range it.neq {
+		var xs []string
+		for k := range m {
+			xs = append(xs, k)
+		}
+		sort.Strings(xs)
+		ks = append(ks, fmt.Sprintf("%p!=%s", v, strings.Join(xs, ",")))
+	}
+	sort.Strings(ks)
+	return strings.Join(parts, ">") + "|" + fmt.Sprintf("%s|%p|%p|%s", it.st.hdr, it.st.hdrErr, it.st.pend, it.st.pendSec) + "|" + strings.Join(ks, ";")
+}
+
+// location resolves a string-typed value to the location whose content it denotes:
+// a load of a local or captured variable -> that variable; otherwise the value itself.
+func location(v ssa.Value, fr *tsFrame) ssa.Value {
+	if u, ok := v.(*ssa.UnOp); ok && u.Op == token.MUL {
+		switch x := u.X.(type) {
+		case *ssa.Alloc:
+			return x
+		case *ssa.FreeVar:
+			if b, ok := fr.bind[x]; ok {
+				return b
+			}
+			return x
+		}
+	}
+	return v
 }
 
 // parserTypestate checks every loop (in fns) that calls a header method. It returns, per loop
@@ -101,8 +183,7 @@ func parserTypestate(c *Ctx, fns []*ssa.Function) map[*ssa.BasicBlock]bool {
 			if !hasHeader {
 				continue
 			}
-			ok := walkParserLoop(c, fn, l)
-			res[l.Head] = ok
+			res[l.Head] = walkParserLoop(c, fn, l)
 		}
 	}
 	return res
@@ -132,14 +213,17 @@ func derivesErr(x ssa.Value, err ssa.Value) bool {
 	return false
 }
 
+// errValueOf returns the SSA value carrying the error result of call (nil when it is never extracted).
 func errValueOf(call *ssa.Call) ssa.Value {
-	// (T, error) tuple -> Extract #last ; error alone -> the call
-	if call.Referrers() == nil {
-		return call
-	}
 	sig := call.Call.Signature()
+	if sig.Results().Len() == 0 {
+		return nil
+	}
 	if sig.Results().Len() == 1 {
 		return call
+	}
+	if call.Referrers() == nil {
+		return nil
 	}
 	last := sig.Results().Len() - 1
 	for _, r := range *call.Referrers() {
@@ -147,17 +231,22 @@ func errValueOf(call *ssa.Call) ssa.Value {
 			return ex
 		}
 	}
-	return nil // error result never extracted: ignored
+	return nil
+}
+
+func unused(v ssa.Value) bool {
+	if v == nil || v.Referrers() == nil {
+		return true
+	}
+	for _, r := range *v.Referrers() {
+		if _, dbg := r.(*ssa.DebugRef); !dbg {
+			return false
+		}
+	}
+	return true
 }
 
 func walkParserLoop(c *Ctx, fn *ssa.Function, l *core.Loop) bool {
-	type item struct {
-		b  *ssa.BasicBlock
-		st tsState
-		// string knowledge
-		eq  map[ssa.Value]string
-		neq map[ssa.Value]map[string]bool
-	}
 	allOK := true
 	seen := map[string]bool{}
 	report := func(pos token.Pos, key, detail string) {
@@ -165,202 +254,238 @@ func walkParserLoop(c *Ctx, fn *ssa.Function, l *core.Loop) bool {
 		c.R.Add(core.Obligation{Rule: "parser-typestate", Key: "parser-typestate " + core.FuncName(fn) + " " + key, Func: core.FuncName(fn), Pos: c.P.Pos(pos), Status: core.Violated,
 			Detail: detail, Hint: "consume the resource whose header was read (typed Resource call checked for error, or Skip of the same section checked for error), or return"})
 	}
-	ser := func(eq map[ssa.Value]string, neq map[ssa.Value]map[string]bool) string {
-		var parts []string
-		for v, s := range eq {
-			parts = append(parts, fmt.Sprintf("%p=%s", v, s))
-		}
-		for v, m := range neq {
-			var ks []string
-			for k := range m {
-				ks = append(ks, k)
-			}
-			sort.Strings(ks)
-			parts = append(parts, fmt.Sprintf("%p!=%s", v, strings.Join(ks, ",")))
-		}
-		sort.Strings(parts)
-		return strings.Join(parts, ";")
-	}
-	work := []item{{b: l.Head, eq: map[ssa.Value]string{}, neq: map[ssa.Value]map[string]bool{}}}
+	root := tsItem{frames: []tsFrame{{fn: fn, block: l.Head, idx: 0}}, eq: map[ssa.Value]string{}, neq: map[ssa.Value]map[string]bool{}}
+	work := []tsItem{root}
 	steps := 0
 	for len(work) > 0 {
 		it := work[len(work)-1]
 		work = work[:len(work)-1]
-		it.st.known = ser(it.eq, it.neq)
-		k := fmt.Sprintf("%d|%s", it.b.Index, it.st.key())
+		k := it.key()
 		if seen[k] {
 			continue
 		}
 		seen[k] = true
 		steps++
-		if steps > 200000 {
+		if steps > 300000 {
 			c.R.Fatal("parser typestate walk exceeded its budget in %s", core.FuncName(fn))
 			return false
 		}
-		st := it.st
-		for _, ins := range it.b.Instrs {
-			call, ok := ins.(*ssa.Call)
-			if !ok {
-				continue
-			}
-			_, name := parserMethod(call)
-			if name == "" {
-				continue
-			}
-			if sec := headerSection(name); sec != "" {
-				if st.hdr != "" && st.pend == nil {
-					// header read again with the previous one unconsumed inside one iteration: no progress by itself, checked at the back edge
+		top := &it.frames[len(it.frames)-1]
+		b := top.block
+		descended := false
+		for i := top.idx; i < len(b.Instrs) && !descended; i++ {
+			ins := b.Instrs[i]
+			switch t := ins.(type) {
+			case *ssa.Store:
+				// assignments of string constants to tracked locations
+				var loc ssa.Value
+				switch a := t.Addr.(type) {
+				case *ssa.Alloc:
+					loc = a
+				case *ssa.FreeVar:
+					if bnd, ok := top.bind[a]; ok {
+						loc = bnd
+					} else {
+						loc = a
+					}
 				}
-				st.hdr = sec
-				st.hdrErr = errValueOf(call)
-				st.pend = nil
-				continue
-			}
-			if cs := consumingSection(name); cs != "" {
-				if st.pend != nil {
-					// previous consuming call's error never tested; it may have failed
+				if loc != nil {
+					delete(it.eq, loc)
+					delete(it.neq, loc)
+					if cst, ok := t.Val.(*ssa.Const); ok && cst.Value != nil && cst.Value.Kind() == constant.String {
+						it.eq[loc] = constant.StringVal(cst.Value)
+					}
 				}
-				if st.hdr == "" {
+			case *ssa.Call:
+				_, name := parserMethod(t)
+				if name == "" {
+					// a module function/closure that uses the parser: walk into it
+					var callee *ssa.Function
+					bind := map[*ssa.FreeVar]ssa.Value{}
+					if f := t.Call.StaticCallee(); f != nil {
+						callee = f
+					}
+					if mc, ok := t.Call.Value.(*ssa.MakeClosure); ok {
+						callee = mc.Fn.(*ssa.Function)
+						for bi, fv := range callee.FreeVars {
+							if bi < len(mc.Bindings) {
+								bv := mc.Bindings[bi]
+								if pfv, ok := bv.(*ssa.FreeVar); ok {
+									if outer, ok := top.bind[pfv]; ok {
+										bv = outer
+									}
+								}
+								bind[fv] = bv
+							}
+						}
+					}
+					if callee != nil && core.InModule(callee) && usesParser(callee) && len(it.frames) < 4 {
+						onStack := false
+						for _, f := range it.frames {
+							if f.fn == callee {
+								onStack = true
+							}
+						}
+						if !onStack {
+							top.idx = i + 1
+							ni := it.clone()
+							ni.frames = append(ni.frames, tsFrame{fn: callee, block: callee.Blocks[0], idx: 0, call: t, bind: bind})
+							work = append(work, ni)
+							descended = true
+						}
+					}
 					continue
 				}
-				if cs != "*" && cs != st.hdr {
-					report(core.PosOf(call), fmt.Sprintf("%s in section %s", name, st.hdr),
-						fmt.Sprintf("%s is called while the pending header was read with %sHeader: skipResource returns an error without advancing, the header stays pending", name, st.hdr))
+				if sec := headerSection(name); sec != "" {
+					it.st.hdr = sec
+					it.st.hdrErr = errValueOf(t)
+					it.st.pend = nil
+					it.st.pendSec = ""
 					continue
 				}
-				ev := errValueOf(call)
-				if ev == nil || ev.Referrers() == nil || len(*ev.Referrers()) == 0 {
-					// error ignored: on failure nothing is consumed
-					st.pend = call
-					st.pendSec = "ignored:" + name
-					continue
+				if cs := consumingSection(name); cs != "" {
+					if it.st.hdr == "" {
+						continue
+					}
+					if cs != "*" && cs != it.st.hdr {
+						report(core.PosOf(t), fmt.Sprintf("%s in section %s", name, it.st.hdr),
+							fmt.Sprintf("%s is called while the pending header was read with %sHeader: skipResource returns an error without advancing, the header stays pending", name, it.st.hdr))
+						continue
+					}
+					ev := errValueOf(t)
+					if ev == nil || unused(ev) {
+						it.st.pend = t
+						it.st.pendSec = "ignored:" + name
+						continue
+					}
+					it.st.pend = ev
+					it.st.pendSec = name
 				}
-				st.pend = ev
-				st.pendSec = name
-				continue
 			}
 		}
-		// terminator
-		last := it.b.Instrs[len(it.b.Instrs)-1]
-		succs := it.b.Succs
-		push := func(to *ssa.BasicBlock, ns tsState, eq map[ssa.Value]string, neq map[ssa.Value]map[string]bool) {
-			if to == l.Head {
-				// back edge
-				if strings.HasPrefix(ns.pendSec, "ignored:") && ns.pend != nil {
-					report(core.PosOf(ns.pend.(ssa.Instruction)), "ignored error of "+strings.TrimPrefix(ns.pendSec, "ignored:"),
-						fmt.Sprintf("the error of %s is ignored and the loop continues: when the resource does not fit the message nothing is consumed and the same header is read again forever", strings.TrimPrefix(ns.pendSec, "ignored:")))
-					return
-				}
-				if ns.pend != nil {
-					// untested error of a consuming call reaching the back edge
-					report(core.PosOf(ns.pend.(ssa.Instruction)), "untested error of "+ns.pendSec,
-						fmt.Sprintf("the result of %s reaches the next iteration without being tested", ns.pendSec))
-					return
-				}
-				if ns.hdr != "" {
-					report(core.PosOf(it.b.Instrs[len(it.b.Instrs)-1]), fmt.Sprintf("iteration without consuming (%s section) via block %s", ns.hdr, it.b.Comment),
-						fmt.Sprintf("a path through the loop body reads a %s-section header and reaches the next iteration without consuming the resource: the parser re-reads the same header forever", ns.hdr))
-				}
-				return
-			}
-			if !l.Blocks[to] {
-				return // leaves the loop
-			}
-			work = append(work, item{b: to, st: ns, eq: eq, neq: neq})
-		}
-		cloneEq := func() (map[ssa.Value]string, map[ssa.Value]map[string]bool) {
-			e := map[ssa.Value]string{}
-			for k, v := range it.eq {
-				e[k] = v
-			}
-			n := map[ssa.Value]map[string]bool{}
-			for k, m := range it.neq {
-				n[k] = map[string]bool{}
-				for s := range m {
-					n[k][s] = true
-				}
-			}
-			return e, n
-		}
-		iff, isIf := last.(*ssa.If)
-		if !isIf {
-			for _, s := range succs {
-				e, n := cloneEq()
-				push(s, st, e, n)
-			}
+		if descended {
 			continue
 		}
-		tS, fS := st, st
-		tFeasible, fFeasible := true, true
-		te, tn := cloneEq()
-		fe, fnq := cloneEq()
-		if cmp, ok := iff.Cond.(*ssa.BinOp); ok && (cmp.Op == token.EQL || cmp.Op == token.NEQ) {
-			eqEdge := func(eq bool) (*tsState, *map[ssa.Value]string, *map[ssa.Value]map[string]bool, *bool) {
-				if (cmp.Op == token.EQL) == eq {
-					return &tS, &te, &tn, &tFeasible
-				}
-				return &fS, &fe, &fnq, &fFeasible
-			}
-			// string constant comparison
-			if cst, ok := cmp.Y.(*ssa.Const); ok && cst.Value != nil && cst.Value.Kind() == constant.String {
-				val := constant.StringVal(cst.Value)
-				v := cmp.X
-				// equal edge
-				_, e, _, feas := eqEdge(true)
-				if cur, ok := it.eq[v]; ok && cur != val {
-					*feas = false
-				} else if it.neq[v][val] {
-					*feas = false
-				} else {
-					(*e)[v] = val
-				}
-				_, _, n2, feas2 := eqEdge(false)
-				if cur, ok := it.eq[v]; ok && cur == val {
-					*feas2 = false
-				} else {
-					if (*n2)[v] == nil {
-						(*n2)[v] = map[string]bool{}
+		last := b.Instrs[len(b.Instrs)-1]
+		push := func(to *ssa.BasicBlock, ni tsItem) {
+			f := &ni.frames[len(ni.frames)-1]
+			if len(ni.frames) == 1 {
+				if to == l.Head {
+					ns := ni.st
+					switch {
+					case strings.HasPrefix(ns.pendSec, "ignored:") && ns.pend != nil:
+						report(core.PosOf(ns.pend.(ssa.Instruction)), "ignored error of "+strings.TrimPrefix(ns.pendSec, "ignored:"),
+							fmt.Sprintf("the error of %s is ignored and the loop continues: when the resource does not fit the message nothing is consumed and the same header is read again forever", strings.TrimPrefix(ns.pendSec, "ignored:")))
+					case ns.pend != nil:
+						report(core.PosOf(ns.pend.(ssa.Instruction)), "untested error of "+ns.pendSec,
+							fmt.Sprintf("the result of %s reaches the next iteration without being tested", ns.pendSec))
+					case ns.hdr != "":
+						report(core.PosOf(last), fmt.Sprintf("iteration without consuming (%s section) via block %s", ns.hdr, b.Comment),
+							fmt.Sprintf("a path through the loop body reads a %s-section header and reaches the next iteration without consuming the resource: the parser re-reads the same header forever", ns.hdr))
 					}
-					(*n2)[v][val] = true
+					return
+				}
+				if !l.Blocks[to] {
+					return // leaves the loop
 				}
 			}
-			// err == ErrSectionDone
-			isSectionDone := func(v ssa.Value) bool {
-				if u, ok := v.(*ssa.UnOp); ok && u.Op == token.MUL {
-					if g, ok := u.X.(*ssa.Global); ok && g.Name() == "ErrSectionDone" {
-						return true
+			f.block, f.idx = to, 0
+			work = append(work, ni)
+		}
+		switch t := last.(type) {
+		case *ssa.Return:
+			if len(it.frames) == 1 {
+				continue // returns from the function: leaves the loop
+			}
+			// return into the caller: re-bind a pending error that is returned to the caller's call value
+			ni := it.clone()
+			fr := ni.frames[len(ni.frames)-1]
+			ni.frames = ni.frames[:len(ni.frames)-1]
+			callErr := errValueOf(fr.call)
+			if ni.st.pend != nil {
+				returned := false
+				for _, rv := range t.Results {
+					if derivesErr(rv, ni.st.pend) || rv == ni.st.pend {
+						returned = true
 					}
 				}
-				return false
-			}
-			if isSectionDone(cmp.Y) && derivesErr(cmp.X, st.hdrErr) {
-				s, _, _, _ := eqEdge(true)
-				s.hdr, s.hdrErr = "", nil
-			}
-			// err != nil / err == nil
-			if cst, ok := cmp.Y.(*ssa.Const); ok && cst.Value == nil {
-				if st.pend != nil && derivesErr(cmp.X, st.pend) {
-					nonnil, _, _, _ := eqEdge(false) // edge where err != nil
-					nonnil.pend, nonnil.pendSec = nil, ""
-					isnil, _, _, _ := eqEdge(true)
-					isnil.pend, isnil.pendSec = nil, ""
-					isnil.hdr, isnil.hdrErr = "", nil
-				} else if derivesErr(cmp.X, st.hdrErr) {
-					nonnil, _, _, _ := eqEdge(false)
-					nonnil.hdr, nonnil.hdrErr = "", nil
+				if strings.HasPrefix(ni.st.pendSec, "ignored:") {
+					// stays ignored
+				} else if returned {
+					if callErr == nil || unused(callErr) {
+						ni.st.pend = fr.call
+						ni.st.pendSec = "ignored:" + ni.st.pendSec + " (via " + fr.fn.Name() + ")"
+					} else {
+						ni.st.pend = callErr
+					}
 				}
 			}
-		}
-		if tFeasible {
-			push(succs[0], tS, te, tn)
-		}
-		if fFeasible {
-			push(succs[1], fS, fe, fnq)
+			work = append(work, ni)
+		case *ssa.If:
+			tI, fI := it.clone(), it.clone()
+			tOK, fOK := true, true
+			if cmp, ok := t.Cond.(*ssa.BinOp); ok && (cmp.Op == token.EQL || cmp.Op == token.NEQ) {
+				eqI, neI := &tI, &fI // item on the edge where X == Y / X != Y
+				eqOK, neOK := &tOK, &fOK
+				if cmp.Op == token.NEQ {
+					eqI, neI = &fI, &tI
+					eqOK, neOK = &fOK, &tOK
+				}
+				if cst, ok := cmp.Y.(*ssa.Const); ok && cst.Value != nil && cst.Value.Kind() == constant.String {
+					val := constant.StringVal(cst.Value)
+					loc := location(cmp.X, top)
+					if cur, ok := it.eq[loc]; ok {
+						if cur == val {
+							*neOK = false
+						} else {
+							*eqOK = false
+						}
+					} else if it.neq[loc][val] {
+						*eqOK = false
+					} else {
+						eqI.eq[loc] = val
+						if neI.neq[loc] == nil {
+							neI.neq[loc] = map[string]bool{}
+						}
+						neI.neq[loc][val] = true
+					}
+				}
+				isSectionDone := func(v ssa.Value) bool {
+					if u, ok := v.(*ssa.UnOp); ok && u.Op == token.MUL {
+						if g, ok := u.X.(*ssa.Global); ok && g.Name() == "ErrSectionDone" {
+							return true
+						}
+					}
+					return false
+				}
+				if isSectionDone(cmp.Y) && derivesErr(cmp.X, it.st.hdrErr) {
+					eqI.st.hdr, eqI.st.hdrErr = "", nil
+				}
+				if cst, ok := cmp.Y.(*ssa.Const); ok && cst.Value == nil {
+					if it.st.pend != nil && !strings.HasPrefix(it.st.pendSec, "ignored:") && derivesErr(cmp.X, it.st.pend) {
+						neI.st.pend, neI.st.pendSec = nil, "" // err != nil: nothing consumed, header still pending
+						eqI.st.pend, eqI.st.pendSec = nil, "" // err == nil: consumed
+						eqI.st.hdr, eqI.st.hdrErr = "", nil
+					} else if derivesErr(cmp.X, it.st.hdrErr) {
+						neI.st.hdr, neI.st.hdrErr = "", nil // header call failed: no header pending
+					}
+				}
+			}
+			if tOK {
+				push(b.Succs[0], tI)
+			}
+			if fOK {
+				push(b.Succs[1], fI)
+			}
+		default:
+			for _, s := range b.Succs {
+				push(s, it.clone())
+			}
 		}
 	}
 	if allOK {
 		c.R.Add(core.Obligation{Rule: "parser-typestate", Key: "parser-typestate " + core.FuncName(fn) + " " + loopDesc(l), Func: core.FuncName(fn), Pos: c.P.Pos(core.PosOf(l.Head.Instrs[0])),
-			Status: core.Proved, Basis: fmt.Sprintf("every path through the loop body (%d block-states explored) consumes the resource whose header it read, or leaves the loop", steps)})
+			Status: core.Proved, Basis: fmt.Sprintf("every path through the loop body (%d block-states explored, calls into parser-using helpers followed) consumes the resource whose header it read, or leaves the loop", steps)})
 	}
 	return allOK
 }
